@@ -23,25 +23,35 @@ RAK = MOD + "release_absorbed_keys"
 
 
 def should_absorb_row(guards, state_AT_pred, key):
-    """-> (row dict, ok) from the guards on absorbing_trigger"""
-    row = {}
+    """what the guards say about Q := `absorbing_trigger == Some(pressed key)`  ->  {"Q": bool} or {} when undecided.
+    Read from a match on the Option (None -> Q false; Some(t) -> Q = (t == key)) or from `!=` / `==` against Some(key)."""
+    trig = None
+    tik = None
+    q = None
     for a, v in guards:
         if isinstance(a, tuple) and a[0] == "variantof" and state_AT_pred(a[1]):
-            row["trigger"] = v if isinstance(v, str) else ("None" if v == ("other", ("Some",)) else str(v))
+            trig = v if isinstance(v, str) else ("None" if v == ("other", ("Some",)) else str(v))
         elif isinstance(a, tuple) and a[0] == "eq":
             sides = [mir.strip(a[1]), mir.strip(a[2])]
             pay = [s for s in sides if isinstance(s, tuple) and s[0] == "field" and isinstance(s[1], tuple) and s[1][0] == "variant" and s[1][2] == "Some" and state_AT_pred(s[1][1])]
             oth = [s for s in sides if s == key]
             if len(pay) == 1 and len(oth) == 1:
-                row["trigger_is_key"] = v
-    return row
+                tik = v
+            whole = [s for s in sides if state_AT_pred(s)]
+            some = [s for s in sides if isinstance(s, tuple) and len(s) > 3 and s[0] == "agg" and s[2] == "Some" and s[3] and mir.strip(s[3][0]) == key]
+            if len(whole) == 1 and len(some) == 1 and isinstance(v, bool):
+                q = v
+    if q is None:
+        if trig == "None":
+            q = False
+        elif trig == "Some" and tik is not None:
+            q = tik
+    return {} if q is None else {"Q": q}
 
 
 def expected_should_absorb(row):
-    if row.get("trigger") == "None":
-        return True
-    if row.get("trigger") == "Some" and "trigger_is_key" in row:
-        return not row["trigger_is_key"]
+    if "Q" in row:
+        return not row["Q"]
     return None
 
 
@@ -76,6 +86,49 @@ def run(ctx):
                 absorbed_local = gt[1]
             pk = mir.Evaluator(np_, None).operand(t["args"][1])
             ck.ob("C08-R2", NP, "is_supported-is-given-input_pressed_keys-as-the-held-set", list_of(pk) == "IP")
+    if absorbed_local is None:
+        # is_supported asked from inside a closure (iter().find(|m| is_supported(.., &absorbed_keys, ..))): follow the
+        # captured reference back to the local of newly_press
+        for cp in sorted(ctx.F.bodies):
+            if not cp.startswith(NP + "::{closure"):
+                continue
+            cb = ctx.body(cp)
+            for i, name, t in cb.calls():
+                if name != MOD + "is_supported":
+                    continue
+                pk = mir.Evaluator(cb, None).operand(t["args"][1])
+                a2 = t["args"][2]
+                idx = None
+                if a2["k"] in ("copy", "move"):
+                    src = a2["place"]
+                    # the argument is a temp holding (a reborrow of) field idx of the closure environment
+                    tterm = cb.gterm_local(src["l"]) if not src["p"] else None
+                    for s_ in (mir.subterms(tterm) if isinstance(tterm, tuple) else []):
+                        if isinstance(s_, tuple) and len(s_) == 3 and s_[0] == "field" and s_[1] == T("param", 1, cb.dbg.get(1, "")):
+                            idx = s_[2]
+                for blk in (np_.blocks.values() if isinstance(np_.blocks, dict) else np_.blocks):
+                    for st in blk["stmts"]:
+                        if st["k"] == "assign" and st["rv"]["k"] == "agg" and st["rv"].get("agg") == "closure" and st["rv"].get("def") == cp and idx is not None:
+                            names = cb.upvar_names if hasattr(cb, "upvar_names") else {}
+                            pos = None
+                            if str(idx).isdigit():
+                                pos = int(idx)
+                            else:
+                                for kk, nm in names.items():
+                                    if nm == idx:
+                                        pos = kk
+                            if pos is not None and pos < len(st["rv"]["ops"]):
+                                o = st["rv"]["ops"][pos]
+                                if o["k"] in ("copy", "move") and not o["place"]["p"]:
+                                    gt = np_.gterm_local(o["place"]["l"])
+                                    if isinstance(gt, tuple) and gt[0] == "var":
+                                        absorbed_local = gt[1]
+                held_ok = False
+                for sl in ktloops.selections(ctx, np_, ANM, 2):
+                    for a_, v_ in sl.pred:
+                        if isinstance(a_, tuple) and a_[0] == "call" and a_[1] == MOD + "is_supported" and list_of(a_[2][1]) == "IP":
+                            held_ok = True
+                ck.ob("C08-R2", NP, "is_supported-is-given-input_pressed_keys-as-the-held-set", held_ok)
     ck.ob("C08-R2", NP, "absorbed-argument-is-a-branch-assigned-local", absorbed_local is not None)
     rows_np = {}
     if absorbed_local is not None:
@@ -96,7 +149,7 @@ def run(ctx):
             rows_np[key] = got
             ck.ob("C08-R2", NP, "absorbed-list=%s" % ",".join("%s=%s" % kv for kv in key), want is not None and got == want,
                   detail="hides mapped_absorbed_keys: %s; specification (no trigger or trigger != pressed key): %s" % (got, want))
-        ck.ob("C08-R2", NP, "three-rows", len(rows_np) == 3, detail=str(rows_np))
+        ck.ob("C08-R2", NP, "both-rows(trigger-is/is-not-the-pressed-key)", len(rows_np) == 2, detail=str(rows_np))
     # ---------------- R3 twin in add_new_mapping
     anm = ctx.body(ANM)
     nk = T("param", 2, anm.dbg.get(2, ""))
@@ -118,7 +171,7 @@ def run(ctx):
         rows_anm[key] = bool(calls)
         ck.ob("C08-R3", ANM, "release_absorbed_keys-called-iff-should_absorb:%s" % ",".join("%s=%s" % kv for kv in key), want is not None and bool(calls) == want,
               detail="called: %s; specification: %s" % (bool(calls), want))
-    ck.ob("C08-R3", "-", "the-two-should_absorb-computations-agree", rows_np == rows_anm and len(rows_anm) == 3, detail="newly_press %s / add_new_mapping %s" % (rows_np, rows_anm))
+    ck.ob("C08-R3", "-", "the-two-should_absorb-computations-agree", rows_np == rows_anm and len(rows_anm) == 2, detail="newly_press %s / add_new_mapping %s" % (rows_np, rows_anm))
     # ---------------- R4 who may write AB / AT
     ab_w = {}
     at_w = {}
